@@ -130,6 +130,22 @@ _METHODS = {
     (str, "rstrip"),
     (str, "lstrip"),
     (str, "endswith"),
+    (str, "swapcase"),
+    (str, "capitalize"),
+    (str, "title"),
+    (str, "casefold"),
+    (str, "isupper"),
+    (str, "islower"),
+    (str, "isalnum"),
+    (str, "rsplit"),
+    (str, "partition"),
+    (str, "rpartition"),
+    (str, "splitlines"),
+    (str, "find"),
+    (str, "count"),
+    (str, "zfill"),
+    (str, "removeprefix"),
+    (str, "removesuffix"),
     (dict, "keys"),
     (dict, "values"),
     (dict, "items"),
@@ -157,15 +173,21 @@ _MODULE_FUNCS = {
 class Folder:
     """Folds expressions in the scope of one module (module constants visible, imports followed)."""
 
-    def __init__(self, repo: Repo, module: str, local: Optional[Dict[str, Any]] = None, cls: Optional[str] = None):
+    def __init__(self, repo: Repo, module: str, local: Optional[Dict[str, Any]] = None, cls: Optional[str] = None, world: Optional[Dict[str, Any]] = None):
+        """`world` (optional): rule-supplied abstract objects that stand for *global* names - stubs for Enum classes, constructors,
+        module functions.  Unlike `local` (the scope of the fragment being folded) they stay visible while a module-level constant
+        that the fragment refers to is folded, so a table such as `{"s33": StackingTopology.downward}` or
+        `{f(m.name): m for m in LeontisWesthof}` is built in the same abstract world as the function body that reads it."""
         self.repo = repo
         self.module = module
-        self.local = dict(local or {})
+        self.world = dict(world or {})
+        self.local = {**self.world, **(local or {})}
         self.cls = cls
         self._busy = set()
 
     def child(self, extra: Dict[str, Any]) -> "Folder":
-        f = Folder(self.repo, self.module, {**self.local, **extra}, self.cls)
+        f = Folder(self.repo, self.module, {**self.local, **extra}, self.cls, self.world)
+        f._busy = self._busy
         return f
 
     def fold(self, node: ast.AST) -> Any:
@@ -201,16 +223,18 @@ class Folder:
                 raise NotConst(f"{n.id} is not a constant")
             expr = mod.consts[home_name]
         except NotConst:
-            if n.id in ("int", "float", "str", "len", "bool", "abs") :
+            if n.id in ("int", "float", "str", "len", "bool", "abs", "list", "dict", "set", "tuple", "frozenset"):
                 return _BUILTINS[n.id]
             raise
         except Exception:
-            if n.id in ("int", "float", "str", "len", "bool", "abs"):
+            if n.id in ("int", "float", "str", "len", "bool", "abs", "list", "dict", "set", "tuple", "frozenset"):
                 return _BUILTINS[n.id]
             raise NotConst(f"unknown name {n.id}")
         self._busy.add(key)
         try:
-            val = Folder(self.repo, home_mod).fold(expr)
+            sub = Folder(self.repo, home_mod, world=self.world)
+            sub._busy = self._busy
+            val = sub.fold(expr)
             muts = getattr(mod, "mutations", {}).get(home_name, [])
             if muts:
                 val = _apply_mutations(self.repo, home_mod, home_name, val, muts)
@@ -220,7 +244,7 @@ class Folder:
 
     def _f_Attribute(self, n):
         # attribute of a local abstract object supplied by the rule (e.g. a pseudo Enum member with .radius)
-        if isinstance(n.value, ast.Name) and n.value.id in self.local and hasattr(self.local[n.value.id], n.attr) and not isinstance(self.local[n.value.id], (str, int, float, list, dict, tuple, set)):
+        if isinstance(n.value, ast.Name) and n.value.id in self.local and hasattr(self.local[n.value.id], n.attr) and (not isinstance(self.local[n.value.id], (str, int, float, list, dict, tuple, set)) or getattr(self.local[n.value.id], "_folder_stub", False)):
             return getattr(self.local[n.value.id], n.attr)
         if not isinstance(n.value, ast.Name):
             try:
@@ -228,6 +252,8 @@ class Folder:
             except NotConst:
                 raise
             if hasattr(base, "__dict__") and n.attr in vars(base):
+                return getattr(base, n.attr)
+            if getattr(base, "_folder_stub", False) and hasattr(base, n.attr):  # property of a rule-supplied stub (Enum member .name / .value)
                 return getattr(base, n.attr)
             raise NotConst(f"attribute {ast.unparse(n)}")
         if isinstance(n.value, ast.Name):
@@ -254,7 +280,7 @@ class Folder:
                     expr = self.repo.class_attr_expr(cls[0], cls[1], n.attr)
                 except Exception:
                     raise NotConst(f"no class attribute {ast.unparse(n)}")
-                return Folder(self.repo, cls[0], cls=cls[1]).fold(expr)
+                return Folder(self.repo, cls[0], cls=cls[1], world=self.world).fold(expr)
         raise NotConst(f"attribute {ast.unparse(n)}")
 
     # --- containers -----------------------------------------------------
@@ -356,16 +382,23 @@ class Folder:
         return "".join(out)
 
     def _f_Call(self, n):
+        f = n.func
+        if n.keywords and isinstance(f, ast.Name) and f.id in self.local and getattr(self.local[f.id], "_folder_keywords", False):
+            # a rule-supplied callable that declares it takes keyword arguments (an evaluated module function, a constructor stub)
+            if any(k.arg is None for k in n.keywords):
+                raise NotConst("**kwargs in call")
+            return self.local[f.id](*self._elts(n.args), **{k.arg: self.fold(k.value) for k in n.keywords})
         if n.keywords and not (
             isinstance(n.func, ast.Name) and n.func.id in ("sorted", "max", "min", "dict")
         ):
             raise NotConst("keywords in call")
-        f = n.func
         if isinstance(f, ast.Name):
             if f.id in self.local and callable(self.local[f.id]):
                 fn = self.local[f.id]
             elif f.id in _BUILTINS:
                 fn = _BUILTINS[f.id]
+            elif self._imported_func(f.id) is not None:  # from itertools import product
+                fn = self._imported_func(f.id)
             else:
                 raise NotConst(f"call of {f.id}")
             args = self._elts(n.args)
@@ -377,8 +410,8 @@ class Folder:
                     raise NotConst("keyword")
             return fn(*args, **kw)
         if isinstance(f, ast.Attribute):
-            if isinstance(f.value, ast.Name) and (f.value.id, f.attr) in _MODULE_FUNCS:
-                return _MODULE_FUNCS[(f.value.id, f.attr)](*self._elts(n.args))
+            if isinstance(f.value, ast.Name) and f.value.id not in self.local and (self._module_alias(f.value.id), f.attr) in _MODULE_FUNCS:
+                return _MODULE_FUNCS[(self._module_alias(f.value.id), f.attr)](*self._elts(n.args))
             recv = self.fold(f.value)
             for t, name in _METHODS:
                 if isinstance(recv, t) and name == f.attr:
@@ -391,6 +424,23 @@ class Folder:
                 return getattr(recv, f.attr)(*self._elts(n.args))
             raise NotConst(f"method {f.attr}")
         raise NotConst("call")
+
+    def _module_alias(self, name: str) -> str:
+        """`import itertools as it` -> 'itertools' (stdlib modules of the whitelist only)."""
+        try:
+            imp = self.repo.module(self.module).imports.get(name)
+        except Exception:
+            imp = None
+        return imp[0] if imp and imp[1] is None else name
+
+    def _imported_func(self, name: str):
+        try:
+            imp = self.repo.module(self.module).imports.get(name)
+        except Exception:
+            return None
+        if imp and imp[1] is not None and (imp[0], imp[1]) in _MODULE_FUNCS:
+            return _MODULE_FUNCS[(imp[0], imp[1])]
+        return None
 
     def _comp(self, generators, emit):
         def rec(i, env):
